@@ -546,6 +546,7 @@ macro_rules! cam_rgb_white { ($out:expr, $S:ty, $name:expr, $t:ty) => {{
 }} }
 
 pub fn run_more(out: &mut Out, rng: &mut Rng, tier: &str) {
+    crate::wp_published::run(out, "C14");   // constants of white_point.rs against the published table (witness for a wrong literal)
     // A
     deprecated_matrices_f32(out, rng);
     deprecated_matrices_f64(out, rng);
